@@ -9,7 +9,9 @@ import (
 	"go/constant"
 	"go/token"
 	"go/types"
+	"math"
 	"math/big"
+	"regexp"
 	"sort"
 	"strconv"
 	"strings"
@@ -70,6 +72,7 @@ type Ctx struct {
 	defOf     map[string]string
 	stores    map[string]storeInfo
 	distinctGrp map[string]int
+	paramIDs  map[string]bool
 }
 
 type writeRec struct {
@@ -112,7 +115,7 @@ func (c *Ctx) fresh(prefix string, k Sort) T {
 }
 
 func isAtomic(t T) bool {
-	return !strings.HasPrefix(t.S, "(") || len(t.S) < 24
+	return !strings.HasPrefix(t.S, "(") || len(t.S) < atomicLimit
 }
 
 func (c *Ctx) def(prefix string, t T) T {
@@ -441,7 +444,13 @@ func (fr *Frame) order() []*ssa.BasicBlock {
 	var dfs func(b *ssa.BasicBlock)
 	dfs = func(b *ssa.BasicBlock) {
 		seen[b] = true
-		for _, s := range b.Succs {
+		// successors that leave b's innermost loop are visited first, so that in
+		// the reverse postorder a loop's body precedes what follows the loop
+		succs := append([]*ssa.BasicBlock(nil), b.Succs...)
+		if li := fr.inLoop[b]; li != nil {
+			sort.SliceStable(succs, func(i, j int) bool { return !li.blocks[succs[i]] && li.blocks[succs[j]] })
+		}
+		for _, s := range succs {
 			if s.Dominates(b) {
 				continue
 			}
@@ -761,15 +770,81 @@ func (c *Ctx) constVal(k *ssa.Const) Val {
 
 func constRat(v constant.Value) *big.Rat {
 	// Typed float constants have been rounded to float64 by go/types. Under
-	// A-REAL a constant is read as the shortest decimal that rounds to it
-	// (0.001 is the real 1/1000, not 1152921504606847/2^60).
+	// A-REAL a constant is read as the simplest rational (smallest denominator)
+	// that rounds to the same float64: 0.001 is 1/1000, 4.0/9.0 is 4/9.
 	f, _ := constant.Float64Val(constant.ToFloat(v))
-	r, ok := new(big.Rat).SetString(strconv.FormatFloat(f, 'g', -1, 64))
-	if !ok {
-		r = new(big.Rat)
-		r.SetFloat64(f)
+	return simplestRat(f)
+}
+
+func simplestRat(f float64) *big.Rat {
+	if f == 0 || math.IsInf(f, 0) || math.IsNaN(f) {
+		return new(big.Rat)
+	}
+	neg := f < 0
+	if neg {
+		f = -f
+	}
+	if d, ok := new(big.Rat).SetString(strconv.FormatFloat(f, 'g', -1, 64)); ok && d.IsInt() {
+		if neg {
+			d.Neg(d)
+		}
+		return d
+	}
+	x := new(big.Rat).SetFloat64(f)
+	up := new(big.Rat).SetFloat64(math.Nextafter(f, math.Inf(1)))
+	dn := new(big.Rat).SetFloat64(math.Nextafter(f, 0))
+	two := big.NewRat(2, 1)
+	// open interval of reals that round to f (half-way points excluded)
+	lo := new(big.Rat).Quo(new(big.Rat).Add(x, dn), two)
+	hi := new(big.Rat).Quo(new(big.Rat).Add(x, up), two)
+	r := simplestBetween(lo, hi, 0)
+	if r == nil {
+		r = x
+	}
+	// keep the literal reading when it is already simple enough (same float)
+	if g, _ := r.Float64(); g != f {
+		r = x
+	}
+	if neg {
+		r.Neg(r)
 	}
 	return r
+}
+
+// simplestBetween returns the rational with the smallest denominator in the
+// open interval (lo, hi), 0 < lo < hi (continued-fraction descent).
+func simplestBetween(lo, hi *big.Rat, depth int) *big.Rat {
+	if depth > 200 {
+		return nil
+	}
+	fl := new(big.Int).Quo(lo.Num(), lo.Denom()) // floor(lo), lo > 0
+	flr := new(big.Rat).SetInt(fl)
+	next := new(big.Rat).Add(flr, big.NewRat(1, 1))
+	if next.Cmp(hi) < 0 {
+		// an integer lies strictly inside (lo, hi) unless lo is that integer
+		if flr.Cmp(lo) > 0 {
+			return flr
+		}
+		return next
+	}
+	if flr.Cmp(lo) == 0 {
+		// lo is an integer and hi <= lo+1: take lo + 1/k for the smallest k
+		d := new(big.Rat).Sub(hi, lo)
+		k := new(big.Int).Quo(d.Denom(), d.Num())
+		k.Add(k, big.NewInt(1))
+		return new(big.Rat).Add(lo, new(big.Rat).SetFrac(big.NewInt(1), k))
+	}
+	// lo, hi share the integer part: recurse on the reciprocals of the fractional parts
+	fl2 := new(big.Rat).Sub(lo, flr)
+	fh2 := new(big.Rat).Sub(hi, flr)
+	if fh2.Sign() <= 0 {
+		return nil
+	}
+	inner := simplestBetween(new(big.Rat).Inv(fh2), new(big.Rat).Inv(fl2), depth+1)
+	if inner == nil {
+		return nil
+	}
+	return new(big.Rat).Add(flr, new(big.Rat).Inv(inner))
 }
 
 // setEdge records the state flowing along b -> succ.
@@ -964,8 +1039,20 @@ func boolT(b bool) T {
 
 func (c *Ctx) newID(st *State) T {
 	id := st.alloc
-	st.alloc = c.def("alloc", app(SInt, "+", st.alloc, intLit(1)))
+	st.alloc = incTerm(st.alloc)
 	return id
+}
+
+var incRe = regexp.MustCompile(`^\(\+ (\S+) (\d+)\)$`)
+
+// incTerm returns t+1, keeping the shape (+ base n) so that ids allocated
+// from the same base are visibly distinct.
+func incTerm(t T) T {
+	if m := incRe.FindStringSubmatch(t.S); m != nil {
+		n, _ := strconv.Atoi(m[2])
+		return T{fmt.Sprintf("(+ %s %d)", m[1], n+1), SInt}
+	}
+	return T{fmt.Sprintf("(+ %s 1)", t.S), SInt}
 }
 
 func (c *Ctx) nilCheck(st *State, ref T, pos token.Pos) {
@@ -1351,6 +1438,11 @@ func (c *Ctx) arith(st *State, op token.Token, x, y T, pos token.Pos, check bool
 		return app(x.K, "-", x, y)
 	case token.MUL:
 		x, y = coerce2(x, y)
+		if x.K == SReal && !isNumeral(x.S) && !isNumeral(y.S) {
+			// a non-linear product: through a macro so that one query variant can
+			// treat it as uninterpreted (enough for data-flow obligations)
+			return app(SReal, "rmulx", x, y)
+		}
 		return app(x.K, "*", x, y)
 	case token.QUO:
 		x, y = coerce2(x, y)
@@ -1455,9 +1547,16 @@ func (c *Ctx) needGoDiv() {
 	// prepended by the query writer
 }
 
+const mulDef = "(define-fun rmulx ((x Real) (y Real)) Real (* x y))\n"
+const mulUF = "(declare-fun rmulx (Real Real) Real)\n"
 const recipUF = "(declare-fun recip (Real) Real)\n(define-fun rdiv ((x Real) (y Real)) Real (* x (recip y)))\n"
 const recipDef = "(declare-fun recip (Real) Real)\n(define-fun rdiv ((x Real) (y Real)) Real (/ x y))\n"
 
 const goDivPrelude = `(define-fun gdiv ((a Int) (b Int)) Int (ite (>= a 0) (div a b) (- (div (- a) b))))
 (define-fun gmod ((a Int) (b Int)) Int (- a (* b (gdiv a b))))
 `
+
+// terms shorter than this are kept inline instead of being named by a fresh
+// constant: syntactically equal code and specification terms then stay equal
+// for the solver without non-linear reasoning
+var atomicLimit = 120
